@@ -511,7 +511,16 @@ func (m *machine) expectEntityNotify(t *rapid.T, e *entM, state model.NetworkMan
 		if !reflect.DeepEqual(s.D.Header.AddressSource, world.LocalNM()) {
 			world.Fail(t, "C07/notify/source/"+what, "notification source is %v, not the local node management%s", s.D.Header.AddressSource, m.history())
 		}
-		if !reflect.DeepEqual(s.D.Header.AddressDestination, p.NM()) {
+		// (the stack learns a peer's device address from its discovery data: a peer that subscribed
+		// before is addressed without the device part)
+		dst := s.D.Header.AddressDestination
+		if dst != nil && dst.Device == nil && p.Ents == nil {
+			c := *dst
+			a := p.Addr
+			c.Device = &a
+			dst = &c
+		}
+		if !reflect.DeepEqual(dst, p.NM()) {
 			world.Fail(t, "C07/notify/destination/"+what, "notification on peer%d's connection is addressed to %v, the subscribed feature is %v%s", pi+1, s.D.Header.AddressDestination, p.NM(), m.history())
 		}
 		cmd := s.Cmd()
@@ -699,7 +708,14 @@ func (m *machine) subscribe(t *rapid.T) {
 	pi := rapid.IntRange(0, len(m.peers)-1).Draw(t, "peer")
 	p := m.peers[pi]
 	if m.sub[pi] {
-		ok := p.CallOK(world.UnsubscribeCall(p.NM(), world.LocalNM()))
+		client := p.NM()
+		if p.Ents == nil {
+			// the stack does not know this peer's device address yet; the delete request leaves it
+			// out, as the subscription manager stored the pair (what it does with a delete request that
+			// names the device is C08's business)
+			client.Device = nil
+		}
+		ok := p.CallOK(world.UnsubscribeCall(client, world.LocalNM()))
 		m.logf("peer%d unsubscribes from node management => %v", pi+1, ok)
 		if !ok {
 			world.Fail(t, "C07/precondition/unsubscribe-refused", "the delete call for an existing node management subscription was refused%s", m.history())
@@ -905,7 +921,15 @@ func TestLocalTree(t *testing.T) {
 		m.snapshotEntityZero(t)
 		nPeers := rapid.IntRange(2, 3).Draw(t, "peers")
 		for i := 0; i < nPeers; i++ {
-			p := m.w.AddPeer(fmt.Sprintf("ski-%d", i+1), fmt.Sprintf("d:_r:peer%d", i+1), nil)
+			// a peer may subscribe before the stack has received its discovery data (its device
+			// address is unknown to the stack then)
+			var p *world.Peer
+			if rapid.IntRange(0, 2).Draw(t, fmt.Sprintf("peer%d.announced", i+1)) == 0 {
+				p = m.w.Connect(fmt.Sprintf("ski-%d", i+1), fmt.Sprintf("d:_r:peer%d", i+1))
+				world.Label("peer/not-announced")
+			} else {
+				p = m.w.AddPeer(fmt.Sprintf("ski-%d", i+1), fmt.Sprintf("d:_r:peer%d", i+1), nil)
+			}
 			m.peers = append(m.peers, p)
 			m.sub = append(m.sub, false)
 			if rapid.Bool().Draw(t, fmt.Sprintf("peer%d.subscribed", i+1)) {
